@@ -197,7 +197,7 @@ impl Engine for NetEngine {
                 if spawned != finished {
                     rep.violate("C07/connection-task-never-finishes", format!("server s{s}: {spawned} connection tasks spawned, {finished} finished although the signal fired at {t_sig} ms and every request ended long ago; {:?}", obs.fault_log));
                 }
-                if case.faults.iter().any(|f| f.kind % 8 == 7 && f.server as usize % nsrv == s && (f.at as u64) < t_sig) {
+                if case.faults.iter().any(|f| f.kind % 9 == 7 && f.server as usize % nsrv == s && (f.at as u64) < t_sig) {
                     rep.class("idle-connection-open-at-signal");
                 }
                 for (conn, t_acc) in &obs.accepted[s] {
@@ -292,9 +292,60 @@ impl Engine for NetEngine {
                 rep.class("handler-error");
             }
             for f in &case.faults {
-                rep.class(["fault-cancelled-connect", "fault-disconnect", "fault-garbage", "fault-truncated-head", "fault-truncated-body", "fault-mid-response", "fault-partial-preface", "holder"][f.kind as usize % 8]);
+                rep.class(["fault-cancelled-connect", "fault-disconnect", "fault-garbage", "fault-truncated-head", "fault-truncated-body", "fault-mid-response", "fault-partial-preface", "holder", "fault-degenerate-pipe"][f.kind as usize % 9]);
             }
             rep.nontrivial = in_flight_during_fault && obs.probes.iter().all(|(_, o)| matches!(o, ClientOutcome::Ok { .. }));
+        }
+
+        // ---- C04 end to end: all requests to an HTTP/2-only origin share one connection
+        if p == "C04" {
+            let all_done = (0..case.reqs.len()).all(|id| matches!(obs.client.get(&id), Some((ClientOutcome::Ok { .. }, _))));
+            for s in 0..nsrv {
+                let n_req = case.reqs.iter().filter(|r| r.server as usize % nsrv == s).count();
+                if case.servers[s] % 3 == 1 && case.pool.is_some() && n_req >= 1 {
+                    // the probe after the horizon uses a client of its own
+                    let acc: Vec<&(usize, u64)> = obs.accepted[s].iter().filter(|(_, t)| *t < HORIZON_MS).collect();
+                    if acc.len() > 1 {
+                        rep.violate("C04/e2e-second-h2-connection", format!("server s{s} (HTTP/2 only) accepted {} connections for {n_req} requests of one pooled client, none of them cancelled or failed: {acc:?}", acc.len()));
+                    }
+                    if n_req >= 2 {
+                        rep.class("several-h2-requests-one-origin");
+                    }
+                    let starts: Vec<u16> = case.reqs.iter().filter(|r| r.server as usize % nsrv == s).map(|r| r.start).collect();
+                    if starts.iter().enumerate().any(|(i, a)| starts[i + 1..].contains(a)) {
+                        rep.class("h2-requests-issued-at-the-same-instant");
+                    }
+                }
+            }
+            for id in 0..case.reqs.len() {
+                if let Some((sig, msg)) = judge_request(case, &obs, id) {
+                    if !sig.starts_with("unavailable-after-abandoned-dial") {
+                        rep.violate(format!("C04/e2e-request-failed/{sig}"), msg);
+                    }
+                }
+            }
+            rep.nontrivial = all_done && rep.classes.contains(&"several-h2-requests-one-origin");
+        }
+
+        // ---- C15 end to end: connections an HTTP/1 origin keeps open once everything finished
+        if p == "C15" {
+            if let Some(pool) = &case.pool {
+                let all_done = (0..case.reqs.len()).all(|id| matches!(obs.client.get(&id), Some((ClientOutcome::Ok { .. }, _))));
+                for s in 0..nsrv {
+                    if case.servers[s] % 3 != 0 || !all_done {
+                        continue;
+                    }
+                    let (spawned, finished) = obs.conn_at_horizon.get(s).copied().unwrap_or((0, 0));
+                    let open = spawned.saturating_sub(finished);
+                    if open > pool.max_idle as usize {
+                        rep.violate("C15/e2e-idle-connections-exceed-bound", format!("server s{s} (HTTP/1): {open} connections are still open long after all {} requests completed, max_idle_per_host = {}", case.reqs.len(), pool.max_idle));
+                    }
+                    if spawned > pool.max_idle as usize {
+                        rep.class("more-connections-than-the-bound-were-used");
+                    }
+                }
+                rep.nontrivial = all_done && rep.classes.contains(&"more-connections-than-the-bound-were-used");
+            }
         }
 
         // ---- classes / non-triviality for C01
@@ -425,6 +476,54 @@ pub fn c07_burst_strategy(max_reqs: usize) -> impl Strategy<Value = NetCase> {
     })
 }
 
+/// HTTP/2-only origins, pooled client, no cancellations, bursts of simultaneous requests.
+pub fn c04_e2e_strategy(max_reqs: usize) -> impl Strategy<Value = NetCase> {
+    (1usize..=2, env_strategy(), prop_oneof![Just(1u8), Just(2u8), Just(32u8)], any::<bool>()).prop_flat_map(move |(nsrv, (_, connect_delay, latency, buf), max_idle, cont)| {
+        proptest::collection::vec((req_strategy(nsrv as u8, false, false), prop_oneof![2 => Just(0u16), 1 => Just(3u16), 2 => 0u16..40]), 1..=max_reqs).prop_map(move |reqs| NetCase {
+            servers: vec![1; nsrv],
+            reqs: reqs
+                .into_iter()
+                .map(|(mut r, start)| {
+                    r.start = start;
+                    r
+                })
+                .collect(),
+            faults: vec![],
+            shutdown: None,
+            pool: Some(NetPool { max_idle, cont }),
+            connect_delay,
+            latency,
+            buf,
+            timeout_ms: None,
+            shutdown_on_accept: None,
+        })
+    })
+}
+
+/// HTTP/1-only origins, pooled client with a small idle bound, bursts of simultaneous requests.
+pub fn c15_e2e_strategy(max_reqs: usize) -> impl Strategy<Value = NetCase> {
+    (1usize..=2, env_strategy(), prop_oneof![Just(0u8), Just(1u8), Just(2u8), Just(3u8)], any::<bool>()).prop_flat_map(move |(nsrv, (_, connect_delay, latency, buf), max_idle, cont)| {
+        proptest::collection::vec((req_strategy(nsrv as u8, false, false), prop_oneof![3 => Just(0u16), 1 => Just(9u16), 1 => 0u16..60]), 1..=max_reqs).prop_map(move |reqs| NetCase {
+            servers: vec![0; nsrv],
+            reqs: reqs
+                .into_iter()
+                .map(|(mut r, start)| {
+                    r.start = start;
+                    r
+                })
+                .collect(),
+            faults: vec![],
+            shutdown: None,
+            pool: Some(NetPool { max_idle, cont }),
+            connect_delay,
+            latency,
+            buf,
+            timeout_ms: None,
+            shutdown_on_accept: None,
+        })
+    })
+}
+
 pub fn c19_strategy(max_reqs: usize) -> impl Strategy<Value = NetCase> {
     (servers_strategy(), env_strategy(), prop_oneof![Just(0u16), Just(5u16), Just(15u16), Just(40u16)]).prop_flat_map(move |(servers, (pool, connect_delay, latency, buf), timeout)| {
         let n = servers.len() as u8;
@@ -448,7 +547,7 @@ pub fn c09_strategy(max_reqs: usize) -> impl Strategy<Value = NetCase> {
         let n = servers.len() as u8;
         (
             proptest::collection::vec(req_strategy(n, false, true), 0..=max_reqs),
-            proptest::collection::vec((0..n, 0u16..60, 0u8..7, any::<u16>()).prop_map(|(server, at, kind, arg)| FaultSpec { server, at, kind, arg }), 1..6),
+            proptest::collection::vec((0..n, 0u16..60, prop_oneof![7 => 0u8..7, 1 => Just(8u8)], any::<u16>()).prop_map(|(server, at, kind, arg)| FaultSpec { server, at, kind, arg }), 1..6),
         )
             .prop_map(move |(reqs, faults)| NetCase {
                 servers: servers.clone(),
